@@ -162,7 +162,30 @@ func randBlob(r *Rng, nss [][]byte, maxLen int) genBlob {
 		g.signer = randSigner(r)
 	}
 	g.data = patterned(r, sparseLen(r, maxLen))
+	if r.Intn(9) == 0 {
+		zeroAtContinuationStarts(g.data, g.ver)
+	}
 	return g
+}
+
+// zeroAtContinuationStarts puts four zero bytes exactly where each continuation share's payload begins
+// (data offset 478+482k for share version 0, 458+482k with a signer) and makes the rest non-zero: in a
+// continuation share those bytes sit where a first share has its sequence length.
+func zeroAtContinuationStarts(data []byte, ver uint8) {
+	first := 478
+	if ver == 1 {
+		first = 458
+	}
+	for i := range data {
+		if data[i] == 0 {
+			data[i] = 0x5a
+		}
+	}
+	for off := first; off < len(data); off += 482 {
+		for j := 0; j < 4 && off+j < len(data); j++ {
+			data[off+j] = 0
+		}
+	}
 }
 
 // randSigner: random in most cases; otherwise the extreme signer values (all zero - the bytes a share
@@ -268,6 +291,12 @@ func compactLen(r *Rng, max int) int {
 // PFBs share one compact share.  Only for properties that never deconstruct.
 var shortInner = false
 
+// almostBlobOK: when set, randTxList also emits ordinary transactions that are corrupted blob transactions
+var almostBlobOK = true
+
+// emptyTxOK: when set, randTxList also emits zero-length ordinary transactions
+var emptyTxOK = false
+
 func blobTxOf(r *Rng, blobs []genBlob) []byte {
 	sizes := make([]uint32, len(blobs))
 	bs := make([]*share.Blob, len(blobs))
@@ -283,6 +312,9 @@ func blobTxOf(r *Rng, blobs []genBlob) []byte {
 			// wrapped PFB ends within a few bytes of a compact share boundary
 			inner = r.Bytes(440 + r.Intn(40))
 		}
+	}
+	if shortInner && r.Intn(12) == 0 {
+		inner = nil // an EMPTY inner transaction: proto3 omits the field from the wrapper altogether
 	}
 	out, err := tx.MarshalBlobTx(inner, bs...)
 	if err != nil {
@@ -335,6 +367,23 @@ func randTxList(r *Rng, nNormal, nBlobTx int, maxBlobLen int, mixed bool, nss []
 			l = 1
 		}
 		t := normalTx(r, l)
+		if emptyTxOK && r.Intn(14) == 0 {
+			// a zero-length ordinary transaction (one delimiter byte 0x00 in the compact sequence); only for
+			// the properties that quantify over ALL transaction lists - C02/C09/C11/C12 speak of non-empty ones
+			t = []byte{}
+		}
+		if almostBlobOK && r.Intn(14) == 0 {
+			// an ORDINARY transaction that starts like a blob transaction: a canonical blob tx followed by a
+			// truncated field (tag 0x08 without a value), or with its last byte cut - not a blob tx for any
+			// decoder that follows the wire format, whatever fields it managed to read before failing
+			b := randBlob(r, nss, 300)
+			enc := blobTxOf(r, []genBlob{b})
+			if r.Bool(60) {
+				t = append(append([]byte{}, enc...), 0x08)
+			} else {
+				t = append([]byte{}, enc[:len(enc)-1]...)
+			}
+		}
 		if len(normals) > 0 && r.Intn(12) == 0 {
 			// a byte-identical copy of an earlier ordinary transaction (lookups keyed by content)
 			t = append([]byte(nil), normals[r.Intn(len(normals))].raw...)
